@@ -251,7 +251,11 @@ def _rule_prune(ctx, rule, name, m, fn, g, var, vis, key_loop):
                     form = v.left.value
                 elif isinstance(st.op, ast.Sub) and isinstance(v, ast.Attribute) and v.attr == "counter":
                     form = 0
-                if form is None:
+                if form is None and isinstance(st.op, (ast.Sub, ast.Add)) and isinstance(v, ast.BinOp) and isinstance(v.op, ast.Sub) and not any(isinstance(x, ast.Attribute) and x.attr == "counter" for x in ast.walk(v)):
+                    ctx.ob(rule, name + "/prune-delta-from-pruned-counter", False,
+                           "TrieDict.%s adjusts the ancestors by `%s`, which is not computed from the pruned node's counter (the number of entries stored below it): len() is wrong when the pruned sub-tree is deeper than one level" % (name, unparse(st)),
+                           m.site(st), witness="add('news.media.example.org'); add('blog.media.example.org'); add('example.org'); len()")
+                elif form is None:
                     ctx.undecided(rule, "TrieDict.%s: prune delta `%s` not in a recognised linear form" % (name, unparse(st)))
                 else:
                     ctx.ob(rule, name + "/prune-delta", form == 1,
